@@ -244,6 +244,9 @@ inductive Op where
   | center (k a b : Nat)
   /-- `objs[i].as_frame(x)` -/
   | asFrame (i x : Nat)
+  /-- `objs[i].ephem(dates=…).as_frame(x)`: the Ephem holds what the propagator returns, in the propagator's frame,
+  whatever frame `objs[i]` is expressed in now; its offset at a node of the Ephem is the propagated state -/
+  | asFrameEph (i x : Nat)
 
 def emit (w : World) (k o c : Nat) : Res → World × Res
   | .ok v => ({ w with objs := w.objs ++ [⟨k, c, v, o, c⟩] }, .ok v)
@@ -287,6 +290,10 @@ def step (fuel : Nat) (ps : Pairs) (seg : Nat → Nat → Nat → V6) (w : World
     match w.objs[i]? with
     | none => none
     | some o => some ({ w with att := w.att ++ [⟨x, o.frame, o.obj, o.cen⟩] }, .ok o.vec)
+  | .asFrameEph i x =>
+    match w.objs[i]? with
+    | none => none
+    | some o => some ({ w with att := w.att ++ [⟨x, o.cen, o.obj, o.cen⟩] }, .ok o.vec)
 
 /-- a whole history: the answers in order -/
 def run (fuel : Nat) (ps : Pairs) (seg : Nat → Nat → Nat → V6) : World → List Op → Option (World × List Res)
